@@ -110,6 +110,17 @@ pub fn check(h: &FHistory, ex: &FExec, obs: &mut Obs) -> Vec<Violation> {
                             break;
                         }
                     }
+                    // "not altered": decode-time spacing inside the segment is that of the writes
+                    // (gaps beyond 32 bits are C16's zone; the last sample's duration is unknowable)
+                    if frag.samples.len() == queue.len() && queue.windows(2).all(|w| w[1].1 - w[0].1 <= u32::MAX as u64) {
+                        for k in 0..queue.len().saturating_sub(1) {
+                            let want = queue[k + 1].1 - queue[k].1;
+                            if frag.samples[k].dur as u64 != want {
+                                out.push(v("sample-altered|decode-time-spacing".into(), format!("op #{}: sample {} is followed after {} ticks but the accepted writes are {} ticks apart", i, k + 1, frag.samples[k].dur, want)));
+                                break;
+                            }
+                        }
+                    }
                     // all samples inside the mdat payload, tiling it
                     if let Some((ps, pl)) = frag.mdat {
                         let mut cur = ps as u64;
